@@ -498,6 +498,8 @@ impl FieldType for [u64; 12] {
 }
 
 token!(HugeTok, u32, u32, #[repr(C, align(8))] { pad: [u64; 160] = [0x4855474548554745; 160] });
+// exactly 256 bytes
+token!(Tok256, u32, u32, #[repr(C, align(8))] { pad: [u64; 31] = [0x0256025602560256; 31] });
 
 impl FieldType for f64 {
     fn make(seed: u64) -> Self {
@@ -766,7 +768,7 @@ mod tests {
         law::<()>(); law::<[u8; 3]>(); law::<[u16; 3]>(); law::<[u32; 3]>(); law::<[u64; 3]>(); law::<[u64; 0]>(); law::<[u8; 5]>();
         law::<(u8, u32)>(); law::<A16>(); law::<A32>(); law::<Z16>(); law::<String>(); law::<Vec<u32>>(); law::<Box<str>>();
         law::<Option<String>>(); law::<[String; 2]>(); law::<Tok8>(); law::<Tok4>(); law::<Tok12>(); law::<Tok16>();
-        law::<TokBox>(); law::<Tok3>(); law::<TokZ>(); law::<BigTok>(); law::<Vec<Tok8>>(); law::<[u64; 12]>(); law::<A64>(); law::<Wide320>(); law::<HugeTok>(); law::<f64>(); law::<fn(u32) -> u32>(); law::<*const u8>(); law::<Box<dyn Fn(u32) -> u32 + Send + Sync>>(); law::<string::String<8>>();
+        law::<TokBox>(); law::<Tok3>(); law::<TokZ>(); law::<BigTok>(); law::<Vec<Tok8>>(); law::<[u64; 12]>(); law::<A64>(); law::<Wide320>(); law::<HugeTok>(); law::<Tok256>(); law::<f64>(); law::<fn(u32) -> u32>(); law::<*const u8>(); law::<Box<dyn Fn(u32) -> u32 + Send + Sync>>(); law::<string::String<8>>();
         assert!(crate::ledger_live().is_empty());
         assert_eq!(crate::zst_live(), 0);
         assert!(crate::ledger_take_errors().is_empty());
@@ -783,5 +785,6 @@ mod tests {
         assert_eq!((size_of::<Z16>(), align_of::<Z16>()), (0, 16));
         assert_eq!((size_of::<A16>(), align_of::<A16>()), (16, 16));
         assert_eq!((size_of::<A32>(), align_of::<A32>()), (32, 32));
+        assert_eq!(size_of::<Tok256>(), 256);
     }
 }
